@@ -62,6 +62,10 @@ def generate(rng, tier: str, index: int) -> dict:
         )  # fmt: skip
         # `local-as auto`: exabgp reads the peer's OPEN first and answers with the peer's AS (another walk through _establish)
         nbrs[-1]['local_auto'] = rng.chance(0.15)
+    if rng.chance(0.12):
+        # the first neighbor is configured as an address range (`neighbor 10.0.1.0/24 { passive; }`): its peer is made
+        # by the listener when the speaker connects in, and is not restarted by exabgp after a loss
+        nbrs[0].update({'range': True, 'peer_ip': '10.0.1.2', 'passive': True, 'local_auto': False})
     events = []
     for _ in range(rng.randint(2, 30 if tier == 'thorough' else 16)):
         peer = rng.randint(0, nn - 1)
@@ -103,7 +107,7 @@ def _delay_open(w, sp, delay: float) -> None:
 
 def neighbor_conf(nb: dict, removed=False, changed=False) -> dict:
     n = {
-        'peer_ip': nb['peer_ip'], 'local_ip': LOCAL, 'local_as': 'auto' if nb.get('local_auto') else 65001, 'peer_as': nb['peer_as'], 'router_id': '10.0.0.1',
+        'peer_ip': '10.0.1.0/24' if nb.get('range') else nb['peer_ip'], 'local_ip': LOCAL, 'local_as': 'auto' if nb.get('local_auto') else 65001, 'peer_as': nb['peer_as'], 'router_id': '10.0.0.1',
         'hold': nb['hold'] + (7 if changed else 0), 'families': [(1, 1)], 'passive': nb['passive'],
         'caps': {'route-refresh': True, 'graceful-restart': nb['gr']} if nb['gr'] else {'route-refresh': True},
         'api': {'processes': ['h1'], 'options': ['neighbor-changes']}, 'static': [f'route 192.0.{2 + nb["idx"]}.0/24 next-hop self'],
@@ -228,6 +232,8 @@ def execute(plan: dict) -> dict:
             pending_close.append((fd, name, frm, to, w.loop.mono))
         if to == 'ESTABLISHED':
             probes['established'] += 1
+            if getattr(getattr(peer, 'neighbor', None), 'ephemeral', False):
+                probes['established_range_peer'] = probes.get('established_range_peer', 0) + 1
             v = check_established(w, speakers, name, fd)
             if v and not violations:
                 violations.append(v)
